@@ -104,6 +104,7 @@ type interpreter struct {
 	permSeq            int
 	hooks              map[string]value // per-path harness state (vh)
 	os                 *osModel         // process environment model, set while vh.RunCLI runs
+	pools              map[*value][]value // sync.Pool model: what was Put and not yet taken (one goroutine: LIFO)
 }
 
 type deferred struct {
